@@ -218,6 +218,12 @@ impl ChannelSigner for TestChannelSigner {
 		let mut state = self.state.lock().unwrap();
 		let idx = holder_tx.commitment_number();
 		#[cfg(feature = "_verif_hooks")]
+		verif_hooks_commit_log::record_commitment(
+			self.inner.channel_keys_id(),
+			"validate_holder",
+			(**holder_tx).clone(),
+		);
+		#[cfg(feature = "_verif_hooks")]
 		verif_hooks_signer_log::record(
 			self.inner.channel_keys_id(),
 			"validate_holder",
@@ -286,6 +292,12 @@ impl EcdsaChannelSigner for TestChannelSigner {
 			"sign_counterparty",
 			commitment_tx.commitment_number(),
 			Some(commitment_tx.trust().txid()),
+		);
+		#[cfg(feature = "_verif_hooks")]
+		verif_hooks_commit_log::record_commitment(
+			self.inner.channel_keys_id(),
+			"sign_counterparty",
+			commitment_tx.clone(),
 		);
 		let mut state = self.state.lock().unwrap();
 		let actual_commitment_number = commitment_tx.commitment_number();
@@ -519,6 +531,8 @@ impl EcdsaChannelSigner for TestChannelSigner {
 		if !self.is_signer_available(SignerOp::SignClosingTransaction) {
 			return Err(());
 		}
+		#[cfg(feature = "_verif_hooks")]
+		verif_hooks_commit_log::record_closing(self.inner.channel_keys_id(), closing_tx.clone());
 		closing_tx
 			.verify(channel_parameters.funding_outpoint.as_ref().unwrap().into_bitcoin_outpoint())
 			.expect("derived different closing transaction");
@@ -655,4 +669,48 @@ pub mod verif_hooks_signer_log {
 #[cfg(all(feature = "_verif_hooks", not(feature = "std")))]
 mod verif_hooks_signer_log {
 	pub(super) fn record(_: [u8; 32], _: &'static str, _: u64, _: Option<bitcoin::Txid>) {}
+}
+
+/// Verification hooks (feature `_verif_hooks` only); see `ln::verif_hooks`. A per-thread,
+/// append-only record of every commitment / closing transaction handed to a
+/// [`TestChannelSigner`] for signing or validation, recorded on entry.
+#[cfg(all(feature = "_verif_hooks", feature = "std"))]
+pub mod verif_hooks_commit_log {
+	use crate::ln::chan_utils::{ClosingTransaction, CommitmentTransaction};
+	use std::cell::RefCell;
+
+	/// One transaction seen by a signer.
+	#[derive(Clone)]
+	pub enum SeenTx {
+		/// `sign_counterparty` or `validate_holder`
+		Commitment(&'static str, CommitmentTransaction),
+		/// `sign_closing_transaction`
+		Closing(ClosingTransaction),
+	}
+
+	thread_local! {
+		static LOG: RefCell<Vec<([u8; 32], SeenTx)>> = RefCell::new(Vec::new());
+	}
+
+	pub(super) fn record_commitment(
+		channel_keys_id: [u8; 32], kind: &'static str, tx: CommitmentTransaction,
+	) {
+		LOG.with(|l| l.borrow_mut().push((channel_keys_id, SeenTx::Commitment(kind, tx))));
+	}
+
+	pub(super) fn record_closing(channel_keys_id: [u8; 32], tx: ClosingTransaction) {
+		LOG.with(|l| l.borrow_mut().push((channel_keys_id, SeenTx::Closing(tx))));
+	}
+
+	/// Removes and returns everything recorded on this thread so far, with the signer's
+	/// `channel_keys_id`.
+	pub fn take() -> Vec<([u8; 32], SeenTx)> {
+		LOG.with(|l| core::mem::take(&mut *l.borrow_mut()))
+	}
+}
+#[cfg(all(feature = "_verif_hooks", not(feature = "std")))]
+mod verif_hooks_commit_log {
+	use crate::ln::chan_utils::{ClosingTransaction, CommitmentTransaction};
+	pub(super) fn record_commitment(_: [u8; 32], _: &'static str, _: CommitmentTransaction) {}
+	pub(super) fn record_closing(_: [u8; 32], _: ClosingTransaction) {}
 }
